@@ -10,10 +10,15 @@ open GorumsV
     reconnect loop and gRPC's re-dialling of the node's ClientConn (`grpc.WithConnectParams`) — with a short configured
     back-off a node that listens again is not left waiting for gRPC's default (up to 120 s) timers -/
 theorem backoff_forwarded_good : Generated.mgr_forwardsBackoff = true ∧ Generated.ch_usesMgrBackoff = true := by decide
+/-- the manager adds two dial options of its own and no others: the content subtype of the gorums codec and the connect
+    parameters with the configured back-off — in particular no service config (a retry policy would make gRPC replay the
+    messages of a stream that has seen no reply yet on a fresh stream: one-way messages delivered twice) -/
+theorem dialOpts_good : Generated.mgr_dialOpts = ["grpc.WithDefaultCallOptions", "grpc.WithConnectParams"] := by decide
 end GorumsV.Tie.C10
 section Audit
 open GorumsV.C10
 #print axioms GorumsV.Tie.C10.backoff_forwarded_good
+#print axioms GorumsV.Tie.C10.dialOpts_good
 #print axioms retried_on_every_request
 #print axioms comes_back_unless_wedged
 #print axioms timer_wait_reachable
